@@ -8,6 +8,7 @@ whitelist raises Unsupported (-> exit 2), never a silent pass.
 """
 from __future__ import annotations
 import ast
+import re
 import itertools
 import operator
 from .report import AnalysisError
@@ -90,6 +91,23 @@ class Mat:
         if self.ndim == 1:
             if isinstance(idx, slice):
                 return Mat(self.d[idx], 1)
+            if isinstance(idx, list):
+                if idx and all(isinstance(x, bool) for x in idx):
+                    m_ = Mat([int(x) for x in idx], 1)
+                    m_.is_bool = True
+                    idx = m_
+                elif all(isinstance(x, int) and not isinstance(x, bool) for x in idx):
+                    idx = Mat(list(idx), 1)
+                else:
+                    raise Unsupported("vector index list of mixed type")
+            if isinstance(idx, Mat) and idx.ndim == 1:
+                if getattr(idx, "is_bool", False):
+                    if len(idx.d) != len(self.d):
+                        raise CERaise("IndexError", "boolean index did not match")
+                    return Mat([x for x, b in zip(self.d, idx.d) if b], 1)
+                return Mat([self.d[i] for i in idx.d], 1)
+            if not isinstance(idx, int):
+                raise Unsupported(f"vector index of type {type(idx).__name__}")
             if idx < -len(self.d) or idx >= len(self.d):
                 raise CERaise("IndexError", "vector index")
             return self.d[idx]
@@ -468,7 +486,13 @@ class CE:
         elif isinstance(tg, ast.Attribute):
             o = self.ev(tg.value, env, f)
             if isinstance(o, Instance):
-                o.attrs[tg.attr] = v
+                ps = self.prog.find_property(o.cls, tg.attr, setter=True)
+                if ps is not None:
+                    self.call_func(ps, [o, v], {})
+                elif self.prog.find_property(o.cls, tg.attr) is not None and not any("cached_property" in d for d in self.prog.find_property(o.cls, tg.attr).decorators):
+                    raise CERaise("AttributeError", f"property {tg.attr} has no setter")
+                else:
+                    o.attrs[tg.attr] = v
             else:
                 raise Unsupported(f"attribute store on {type(o).__name__} at {pyfacts.where(f, tg)}")
         elif isinstance(tg, ast.Subscript):
@@ -567,7 +591,12 @@ class CE:
             left = self.ev(e.left, env, f)
             for op, rn in zip(e.ops, e.comparators):
                 right = self.ev(rn, env, f)
-                if not self.cmp(op, left, right):
+                r = self.cmp(op, left, right)
+                if isinstance(r, Mat):
+                    if len(e.ops) != 1:
+                        raise Unsupported("chained elementwise comparison")
+                    return r
+                if not r:
                     return False
                 left = right
             return True
@@ -665,10 +694,16 @@ class CE:
             a = Mat(list(a.row()), 1)
         if isinstance(a, Mat) and isinstance(b, list):
             b = Mat(b)
+        if isinstance(b, RowView):
+            b = Mat(list(b.row()), 1)
         if isinstance(a, Mat) or isinstance(b, Mat):
-            if isinstance(op, ast.Eq) and isinstance(a, Mat) and isinstance(b, Mat):
-                raise Unsupported("elementwise matrix comparison")
-            raise Unsupported("matrix comparison")
+            fn = CMPOPS.get(type(op))
+            if fn is None or isinstance(op, (ast.Is, ast.IsNot)):
+                raise Unsupported("matrix comparison")
+            # elementwise, as numpy does: the result is a boolean array
+            r = a.zipmap(b, lambda x, y: int(fn(x, y))) if isinstance(a, Mat) else b.map(lambda y: int(fn(a, y)))
+            r.is_bool = True
+            return r
         if isinstance(op, (ast.Is, ast.IsNot)) and isinstance(a, ExtName) and isinstance(b, ExtName):
             return (a == b) == isinstance(op, ast.Is)
         fn = CMPOPS.get(type(op))
@@ -703,11 +738,23 @@ class CE:
 
     def getattr(self, o, attr, e, f):
         if isinstance(o, Instance):
+            pg = self.prog.find_property(o.cls, attr)
+            if pg is not None and attr not in o.attrs:
+                val = self.call_func(pg, [o], {})
+                if any("cached_property" in d for d in pg.decorators):
+                    o.attrs[attr] = val
+                return val
             if attr in o.attrs:
                 return o.attrs[attr]
             m = self.prog.find_method(o.cls, attr)
             if m is not None:
                 return BoundRepo(o, m)
+            if attr in o.cls.class_assigns:
+                mf = pyfacts.Func.__new__(pyfacts.Func)
+                mf.module, mf.qualname, mf.name, mf.node, mf.cls = o.cls.module, "<class>", "<class>", o.cls.node, None
+                return self.ev(o.cls.class_assigns[attr], {}, mf)
+            if self.prog.find_method(o.cls, "__init__") is None and "_fields" not in o.attrs:
+                raise Unsupported(f"attribute {attr} of an instance of {o.cls.name} whose fields are not modelled")
             raise CERaise("AttributeError", attr)
         if isinstance(o, pyfacts.Class):
             m = self.prog.find_method(o, attr)
@@ -726,7 +773,7 @@ class CE:
                 return o.shape
             if attr == "T":
                 return o.transpose()
-            if attr in ("fill", "copy", "sum", "any", "all", "transpose", "astype", "reshape", "tolist"):
+            if attr in ("fill", "copy", "sum", "any", "all", "transpose", "astype", "reshape", "tolist", "setflags", "nonzero", "flatten", "ravel"):
                 return ("matmethod", o, attr)
             if attr == "dtype":
                 return ExtName("numpy.int8")
@@ -738,6 +785,12 @@ class CE:
             return ("recmethod", o, attr)
         if isinstance(o, tuple) and o and o[0] == "respath":
             return ("respath-method", o, attr)
+        if isinstance(o, (re.Pattern, re.Match)):
+            if isinstance(o, re.Match) and attr in ("string", "pos", "endpos", "lastindex", "lastgroup"):
+                return getattr(o, attr)
+            if isinstance(o, re.Pattern) and attr in ("pattern", "groups", "flags"):
+                return getattr(o, attr)
+            return ("pymethod", o, attr)
         if isinstance(o, (str, list, dict, tuple, int, set)):
             return ("pymethod", o, attr)
         raise Unsupported(f"attribute {attr} of {type(o).__name__} at {pyfacts.where(f, e)}")
@@ -769,6 +822,27 @@ class CE:
             init = self.prog.find_method(fn, "__init__")
             if init is not None:
                 self.call_func(init, [inst] + args, kwargs)
+                return inst
+            names = [st.target.id for st in fn.node.body if isinstance(st, ast.AnnAssign) and isinstance(st.target, ast.Name)]
+            tuple_like = any(b.split(".")[-1] == "NamedTuple" for b in fn.bases) or any("dataclass" in ast.unparse(d) for d in fn.node.decorator_list)
+            if names and tuple_like:
+                if len(args) > len(names):
+                    raise CERaise("TypeError", f"{fn.name}() takes {len(names)} fields")
+                for i, nm in enumerate(names):
+                    if i < len(args):
+                        inst.attrs[nm] = args[i]
+                    elif nm in kwargs:
+                        inst.attrs[nm] = kwargs[nm]
+                    elif nm in fn.class_assigns:
+                        mf = pyfacts.Func.__new__(pyfacts.Func)
+                        mf.module, mf.qualname, mf.name, mf.node, mf.cls = fn.module, "<class>", "<class>", fn.node, None
+                        inst.attrs[nm] = self.ev(fn.class_assigns[nm], {}, mf)
+                    else:
+                        raise CERaise("TypeError", f"{fn.name}() missing field {nm}")
+                inst.attrs["_fields"] = tuple(names)
+                return inst
+            if args or kwargs:
+                raise Unsupported(f"instantiation of {fn.name} without a modelled constructor")
             return inst
         if isinstance(fn, tuple) and fn and fn[0] == "closure":
             return self.call_func(fn[1], args, kwargs, closure=fn[2])
@@ -808,7 +882,11 @@ class CE:
             allowed = {str: {"split", "replace", "startswith", "endswith", "lstrip", "rstrip", "strip", "join", "format", "count", "index", "find", "lower", "upper", "zfill"},
                        list: {"append", "extend", "copy", "index", "count", "reverse", "pop", "insert", "sort"},
                        dict: {"get", "items", "keys", "values", "copy", "update", "setdefault"},
-                       tuple: {"index", "count"}, int: {"bit_count", "bit_length"}, set: {"add", "union"}}
+                       tuple: {"index", "count"}, int: {"bit_count", "bit_length"}, set: {"add", "union"},
+                       re.Pattern: {"match", "fullmatch", "search", "findall", "finditer", "split", "sub"},
+                       re.Match: {"group", "groups", "groupdict", "start", "end", "span"}}
+            if isinstance(o, re.Pattern) and not all(isinstance(a, (str, int)) for a in list(args) + list(kwargs.values())):
+                raise Unsupported(f"regular expression method {name} on non-string arguments")
             for ty, names in allowed.items():
                 if isinstance(o, ty) and name in names:
                     try:
@@ -838,6 +916,16 @@ class CE:
             return m.copy()
         if name == "tolist":
             return [list(r) for r in m.d] if m.ndim == 2 else list(m.d)
+        if name == "setflags":
+            if kwargs.get("write", args[0] if args else None) is False:
+                m.readonly = True
+            return None
+        if name == "nonzero":
+            if m.ndim == 1:
+                return (Mat([i for i, x in enumerate(m.d) if x], 1),)
+            return (Mat([i for i, r in enumerate(m.d) for x in r if x], 1), Mat([j for r in m.d for j, x in enumerate(r) if x], 1))
+        if name in ("flatten", "ravel"):
+            return Mat(m.flat(), 1)
         if name == "reshape":
             shape = args[0] if len(args) == 1 and isinstance(args[0], tuple) else tuple(args)
             flat = m.flat()
@@ -891,6 +979,16 @@ class CE:
             return list(itertools.combinations(list(self.iterate(args[0])), args[1]))
         if dotted.startswith("numpy."):
             return self.call_numpy(name, args, kwargs, e, f)
+        if dotted in ("re.compile", "re.match", "re.fullmatch", "re.search", "re.findall", "re.finditer", "re.split", "re.sub", "re.escape"):
+            # regular expressions over constant strings: pure, evaluated exactly
+            if not all(isinstance(a, (str, int, re.Pattern, re.RegexFlag)) for a in list(args) + list(kwargs.values())):
+                raise Unsupported(f"{dotted} on non-string arguments at {pyfacts.where(f, e)}")
+            try:
+                return getattr(re, name)(*args, **kwargs)
+            except re.error as ex:
+                raise CERaise("error", str(ex))
+        if dotted.startswith("re.") and name in ("IGNORECASE", "I", "VERBOSE", "X", "ASCII", "A", "MULTILINE", "M", "DOTALL", "S"):
+            return getattr(re, name)
         if name == "get_args" and args and isinstance(args[0], tuple) and args[0] and args[0][0] == "literal":
             return args[0][1]
         if dotted.endswith("resources.files") or dotted.endswith("resources.is_resource") or dotted.endswith("resources.read_text"):
@@ -932,6 +1030,12 @@ class CE:
             if src and isinstance(src[0], (list, tuple, Mat, RowView)):
                 return Mat([list(r.d if isinstance(r, Mat) else (r.row() if isinstance(r, RowView) else r)) for r in src], 2)
             return Mat([_scalar(x) for x in src], 1)
+        if name in ("zeros_like", "ones_like") and isinstance(args[0], (Mat, RowView)):
+            a = args[0] if isinstance(args[0], Mat) else Mat(list(args[0].row()), 1)
+            return a.map(lambda _x: 0 if name == "zeros_like" else 1)
+        if name == "ones":
+            shape = kwargs.get("shape", args[0] if args else None)
+            return Mat.zeros(tuple(shape) if isinstance(shape, (list, tuple)) else shape).map(lambda _x: 1)
         if name in ("eye", "identity"):
             n = args[0]
             return Mat([[1 if i == j else 0 for j in range(n)] for i in range(n)], 2)
@@ -967,6 +1071,35 @@ class CE:
             return Mat([[x * y for y in bv] for x in av], 2)
         if name == "arange":
             return Mat(list(range(*args)), 1)
+        if name in ("triu", "tril") and isinstance(args[0], Mat) and args[0].ndim == 2:
+            k = kwargs.get("k", args[1] if len(args) > 1 else 0)
+            keep = (lambda i, j: j - i >= k) if name == "triu" else (lambda i, j: j - i <= k)
+            r = Mat([[x if keep(i, j) else 0 for j, x in enumerate(row)] for i, row in enumerate(args[0].d)], 2)
+            if getattr(args[0], "is_bool", False):
+                r.is_bool = True
+            return r
+        if name == "argwhere" and isinstance(args[0], Mat):
+            a = args[0]
+            if a.ndim == 1:
+                return Mat([[i] for i, x in enumerate(a.d) if x], 2)
+            return Mat([[i, j] for i, row in enumerate(a.d) for j, x in enumerate(row) if x], 2)
+        if name == "diag" and isinstance(args[0], Mat):
+            a = args[0]
+            if a.ndim == 1:
+                n = len(a.d)
+                return Mat([[a.d[i] if i == j else 0 for j in range(n)] for i in range(n)], 2)
+            return Mat([a.d[i][i] for i in range(min(a.shape))], 1)
+        if name in ("triu_indices", "tril_indices"):
+            n = args[0]
+            k = kwargs.get("k", args[1] if len(args) > 1 else 0)
+            m_ = kwargs.get("m", args[2] if len(args) > 2 else None) or n
+            keep = (lambda i, j: j - i >= k) if name == "triu_indices" else (lambda i, j: j - i <= k)
+            pairs = [(i, j) for i in range(n) for j in range(m_) if keep(i, j)]
+            return (Mat([i for i, _ in pairs], 1), Mat([j for _, j in pairs], 1))
+        if name == "nonzero":
+            return self.mat_method(args[0], "nonzero", [], {})
+        if name == "where" and len(args) == 1 and isinstance(args[0], Mat):
+            return self.mat_method(args[0], "nonzero", [], {})
         raise Unsupported(f"numpy.{name} at {pyfacts.where(f, e)}")
 
     def isinstance(self, v, tnode, f):
